@@ -118,8 +118,8 @@ pub struct World {
     pub known_arcs: Vec<(Vec<u8>, c15::Files)>,
 }
 
-const DIRS: [&str; 12] = ["m", "data", "Subdir", "a", "x.y", "zz", "scripts", "tex\\hi", "ver1.0", "data.lz", "@E", "e_m"];
-const FILES: [&str; 27] = ["GameData.bin.lz", "one.bin", "two.txt", "mess.cmp", "f.cms", "plain", "three.txt", "arc.arc", "pack.bin", "t.bin.lz", "GameData.bin", "n-1_@.dat", "tex.ctpk", "model.bch", "ui.bcres", "img.tpl", "odd\\name.bin", "UPPER.LZ", "Mixed.Cmp", "map.v2.cmp", "SAVE.CMS", "@E", "e_one.bin", "lz", "x.cmp.bak", "@U.lz", "cmp"];
+const DIRS: [&str; 15] = ["m", "data", "Subdir", "a", "x.y", "zz", "scripts", "tex\\hi", "ver1.0", "data.lz", "@E", "e_m", "sub..dir", "rom:", "Thumbs.db"];
+const FILES: [&str; 32] = ["v1..2.bin", "Data..bin.lz", "Thumbs.db", "desktop.ini", "..hidden", "GameData.bin.lz", "one.bin", "two.txt", "mess.cmp", "f.cms", "plain", "three.txt", "arc.arc", "pack.bin", "t.bin.lz", "GameData.bin", "n-1_@.dat", "tex.ctpk", "model.bch", "ui.bcres", "img.tpl", "odd\\name.bin", "UPPER.LZ", "Mixed.Cmp", "map.v2.cmp", "SAVE.CMS", "@E", "e_one.bin", "lz", "x.cmp.bak", "@U.lz", "cmp"];
 
 pub fn gen_dir(rng: &mut Rng) -> String {
     let d = rng.range(0, 3);
@@ -172,6 +172,22 @@ fn payload(rng: &mut Rng) -> Vec<u8> {
 
 /// a valid compressed stream for the game's format holding `data` (reference encoder)
 fn ref_stream(rng: &mut Rng, cfg: &GameCfg, max_out: usize) -> Vec<u8> {
+    if cfg.lz13 && max_out >= 100 && rng.chance(1, 25) {
+        // a highly compressed file: a few maximum-length LZ11 references (up to 0x10110 bytes each)
+        let mut t = vec![lz::Tok::Lit(rng.u8())];
+        let mut total = 1usize;
+        if rng.bool() {
+            t.push(lz::Tok::Lit(rng.u8()));
+            total += 1;
+        }
+        for _ in 0..rng.range(1, 3) {
+            let l = *rng.pick(&[65808usize, 65808, 40000, 4097, 30000]);
+            t.push(lz::Tok::Ref(l, total.min(2)));
+            total += l;
+        }
+        let bare = lz::encode(Kind::Lz11, &t, total);
+        return if rng.bool() { bare } else { lz::wrap13(&bare) };
+    }
     if cfg.lz13 {
         let (t, d) = lz::gen_tokens(rng, Kind::Lz11, max_out);
         let bare = lz::encode(Kind::Lz11, &t, d.len());
@@ -415,10 +431,20 @@ impl World {
             c.sit("layer_roots_with_non_ascii_names");
         }
         let mut roots = Vec::new();
-        for (i, t) in layers.iter().enumerate() {
+        for i in 0..layers.len() {
             // every fourth world keeps its layers in directories with non-ASCII names
             let r = if c.idx % 4 == 3 { base.join(format!("L{}/パッチ Ü{}", i, i)) } else { base.join(format!("L{}", i)) };
-            materialize(&r, t).map_err(|e| format!("materializing layer {}: {}", i, e))?;
+            if rng.chance(1, 25) {
+                // a tree stored under its full original path: the layer contains its own absolute path again
+                let file = format!("{}/mirror.txt", r.display().to_string().trim_start_matches('/'));
+                let comps: Vec<&str> = file.split('/').collect();
+                if !(1..comps.len()).any(|k| matches!(layers[i].get(&comps[..k].join("/")), Some(Node::File(_)))) && comps.iter().all(|x| x.len() <= 255) {
+                    c.sit("layer_contains_its_own_absolute_path_again");
+                    add_parents(&mut layers[i], &file);
+                    layers[i].insert(file, Node::File(b"mirror".to_vec()));
+                }
+            }
+            materialize(&r, &layers[i]).map_err(|e| format!("materializing layer {}: {}", i, e))?;
             roots.push(r);
         }
         // now and then the layer list names the lowest directory again as the top layer: [L0, .., L0]
@@ -428,8 +454,25 @@ impl World {
             let t0 = layers[0].clone();
             layers.push(t0);
         }
+        // the same directories may be named in a roundabout way (a ".." or "." step, a doubled or trailing separator)
+        let mut spelled: Vec<String> = roots.iter().map(|r| r.display().to_string()).collect();
+        if rng.chance(1, 8) {
+            c.sit("layer_roots_spelled_non_canonically");
+            for (i, r) in roots.iter().enumerate() {
+                let name = r.file_name().map(|n| n.to_string_lossy().to_string()).unwrap_or_default();
+                let parent = r.parent().map(|p| p.display().to_string()).unwrap_or_default();
+                spelled[i] = match rng.below(6) {
+                    0 => format!("{}/../{}", r.display(), name),
+                    1 => format!("{}/./{}", parent, name),
+                    2 => format!("{}/", r.display()),
+                    3 => format!("{}//{}", parent, name),
+                    4 => format!("{}/{}/../{}/.", parent, name, name),
+                    _ => r.display().to_string(),
+                };
+            }
+        }
         let fs = c
-            .lib("LayeredFilesystem::new", || LayeredFilesystem::new(roots.iter().map(|r| r.display().to_string()).collect(), lang, game).map_err(|e| e.to_string()))
+            .lib("LayeredFilesystem::new", || LayeredFilesystem::new(spelled.clone(), lang, game).map_err(|e| e.to_string()))
             .ok_or("panic in LayeredFilesystem::new")?
             .map_err(|e| format!("LayeredFilesystem::new failed for a supported game: {}", e))?;
         // configuration accessors must agree with the codec table of the statement
